@@ -117,11 +117,15 @@ where
     // accounts for execution time to send a message and changes in polling to wake
     // the task to assure that the period doesn't drift over long runtimes.
     crate::concurrency::spawn(async move {
+        #[cfg(ractor_verif)]
+        crate::verif::emit("timer.start", actor.get_id().pid(), period.as_millis() as i64);
         let mut timer = crate::concurrency::interval(period);
         // timer tick's immediately the first time
         timer.tick().await;
         while ACTIVE_STATES.contains(&actor.get_status()) {
             timer.tick().await;
+            #[cfg(ractor_verif)]
+            crate::verif::emit("timer.fire", actor.get_id().pid(), period.as_millis() as i64);
             // if we receive an error trying to send, the channel is closed and we should stop trying
             // actor died
             if actor.send_message::<TMessage>(msg()).is_err() {
@@ -152,7 +156,11 @@ where
     F: FnOnce() -> TMessage + Send + 'static,
 {
     crate::concurrency::spawn(async move {
+        #[cfg(ractor_verif)]
+        crate::verif::emit("timer.start", actor.get_id().pid(), period.as_millis() as i64);
         crate::concurrency::sleep(period).await;
+        #[cfg(ractor_verif)]
+        crate::verif::emit("timer.fire", actor.get_id().pid(), period.as_millis() as i64);
         actor.send_message::<TMessage>(msg())
     })
 }
@@ -167,7 +175,11 @@ where
 /// exit operation, you can abort the handle
 pub fn exit_after(period: Duration, actor: ActorCell) -> JoinHandle<()> {
     crate::concurrency::spawn(async move {
+        #[cfg(ractor_verif)]
+        crate::verif::emit("timer.start", actor.get_id().pid(), period.as_millis() as i64);
         crate::concurrency::sleep(period).await;
+        #[cfg(ractor_verif)]
+        crate::verif::emit("timer.fire", actor.get_id().pid(), period.as_millis() as i64);
         actor.stop(Some(format!("Exit after {}ms", period.as_millis())))
     })
 }
@@ -181,7 +193,11 @@ pub fn exit_after(period: Duration, actor: ActorCell) -> JoinHandle<()> {
 /// kill operation, you can abort the handle
 pub fn kill_after(period: Duration, actor: ActorCell) -> JoinHandle<()> {
     crate::concurrency::spawn(async move {
+        #[cfg(ractor_verif)]
+        crate::verif::emit("timer.start", actor.get_id().pid(), period.as_millis() as i64);
         crate::concurrency::sleep(period).await;
+        #[cfg(ractor_verif)]
+        crate::verif::emit("timer.fire", actor.get_id().pid(), period.as_millis() as i64);
         actor.kill()
     })
 }
@@ -236,11 +252,15 @@ where
         // notes
         let self_clone = self.clone();
         crate::concurrency::spawn(async move {
+            #[cfg(ractor_verif)]
+            crate::verif::emit("timer.start", self_clone.get_id().pid(), period.as_millis() as i64);
             let mut timer = crate::concurrency::interval(period);
             // timer tick's immediately the first time
             timer.tick().await;
             while ACTIVE_STATES.contains(&self_clone.get_status()) {
                 timer.tick().await;
+                #[cfg(ractor_verif)]
+                crate::verif::emit("timer.fire", self_clone.get_id().pid(), period.as_millis() as i64);
                 // if we receive an error trying to send, the channel is closed and we should stop trying
                 // actor died
                 if self_clone.send_message(msg()).is_err() {
@@ -261,7 +281,11 @@ where
     {
         let self_clone = self.clone();
         crate::concurrency::spawn(async move {
+            #[cfg(ractor_verif)]
+            crate::verif::emit("timer.start", self_clone.get_id().pid(), period.as_millis() as i64);
             crate::concurrency::sleep(period).await;
+            #[cfg(ractor_verif)]
+            crate::verif::emit("timer.fire", self_clone.get_id().pid(), period.as_millis() as i64);
             let msg = msg();
             self_clone.send_message(msg)
         })
